@@ -98,7 +98,9 @@ const (
 	respOther
 )
 
-func (k respKind) String() string { return [...]string{"no-envelope", "legacy(v0)", "versioned(v1)", "other"}[k] }
+func (k respKind) String() string {
+	return [...]string{"no-envelope", "legacy(v0)", "versioned(v1)", "other"}[k]
+}
 
 func classify(x interface{}) (respKind, string, int32) {
 	switch r := x.(type) {
